@@ -520,6 +520,17 @@ func (r *Resolver) resolve(ctx context.Context, rs *resolveState) (*dns.Msg, err
 	m.RecursionAvailable = true
 	m.Extra = rs.req.Extra
 
+	// An empty reply proves nothing, and from a signed zone it must not
+	// pass as "no data": every negative answer there carries its denial
+	// (RFC 4035 §3.1.3). Without this an answer with all its records
+	// removed on the way — the cheapest forgery there is — reached the
+	// client, and the cache, as an unvalidated NODATA. authority() applies
+	// the rule it applies to a negative answer stripped of its proof:
+	// bogus, unless the name sits under a proven insecure delegation.
+	if !rs.req.CheckingDisabled {
+		return r.authority(ctx, rs.req, m, rs.parentDS, rs.servers.Zone)
+	}
+
 	return m, nil
 }
 
